@@ -166,9 +166,13 @@ theorem spec_beq_trans {a b c : Spec} (hg : refsExact [a, b, c]) (h1 : a.beq b =
       rcases hp with rfl | rfl | rfl <;> rcases hq with rfl | rfl | rfl <;>
         first | exact hpre _ (by simp) _ (by simp) hs
 
-/-- **equal specifications hash alike** when falsy source fields are stored as `None` -/
-theorem specHash_eq {a b : Spec} (ha : specNormal a = true) (hb : specNormal b = true) (h : a.beq b = true) :
-    specHash a = specHash b := by
+theorem orNone_eq_of_falsyEq {x y : Option String} (h : falsyEq x y) : orNone x = orNone y := by
+  rcases h with ⟨p, q⟩ | rfl
+  · simp [orNone, p, q]
+  · rfl
+
+/-- **equal specifications hash alike** -/
+theorem specHash_eq {a b : Spec} (h : a.beq b = true) : specHash a = specHash b := by
   rw [spec_beq_iff] at h
   obtain ⟨hn, hs⟩ := h
   unfold specHash
@@ -180,17 +184,9 @@ theorem specHash_eq {a b : Spec} (ha : specNormal a = true) (hb : specNormal b =
     · simp
     · simp only [htt, Bool.not_true, Bool.false_eq_true, if_false] at hs
       simp only [if_true]
-      have norm : ∀ x y : Option String, x ≠ some "" → y ≠ some "" →
-          ((truthy x || truthy y) && x != y) = false → x = y := by
-        intro x y hx hy hxy
-        rw [falsyEq_iff] at hxy
-        rcases hxy with ⟨p, q⟩ | rfl
-        · cases x <;> cases y <;> simp_all [truthy]
-        · rfl
-      simp only [specNormal, Bool.and_eq_true, bne_iff_ne, ne_eq] at ha hb
       cases hu : ((truthy a.sourceUrl || truthy b.sourceUrl) && a.sourceUrl != b.sourceUrl)
       · cases hd : ((truthy a.sourceSubdirectory || truthy b.sourceSubdirectory) && a.sourceSubdirectory != b.sourceSubdirectory)
-        · rw [norm _ _ ha.1 hb.1 hu, norm _ _ ha.2 hb.2 hd]
+        · rw [orNone_eq_of_falsyEq ((falsyEq_iff _ _).1 hu), orNone_eq_of_falsyEq ((falsyEq_iff _ _).1 hd)]
         · simp [hu, hd] at hs
       · simp [hu] at hs
   · have : (a.sourceType != b.sourceType) = true := by simpa using ht
